@@ -12,6 +12,7 @@ import BromeliaVerif.Properties.C09
 import BromeliaVerif.Properties.C11
 import BromeliaVerif.Properties.C12
 import BromeliaVerif.Properties.C13
+import BromeliaVerif.Properties.C14
 import BromeliaVerif.Properties.C15
 import BromeliaVerif.Properties.C16
 import BromeliaVerif.Properties.C19
